@@ -75,7 +75,11 @@ pub fn guarded<T: Send + 'static, F: FnOnce() -> T + Send + 'static>(secs: f64, 
 static CURRENT: std::sync::Mutex<String> = std::sync::Mutex::new(String::new());
 static ABANDONED_CALLS: std::sync::Mutex<Vec<String>> = std::sync::Mutex::new(Vec::new());
 /// names the call that is about to run (reported by the watchdog)
-pub fn set_current(what: &str) { if let Ok(mut c) = CURRENT.lock() { *c = what.chars().take(2000).collect(); } }
+pub fn set_current(what: &str) {
+    if let Ok(mut c) = CURRENT.lock() { *c = what.chars().take(2000).collect(); }
+    // a stack overflow or an allocation failure aborts the whole process: the last of these lines on stderr names the case that did it
+    eprintln!("@CURRENT {}", what.chars().take(2000).collect::<String>());
+}
 
 /// a runaway helper thread that keeps allocating must not take the machine down: a watchdog thread ends the process
 /// (exit code 3, after naming the call that was running) when the resident set exceeds `limit_mb`
